@@ -293,6 +293,10 @@ type runOutcome struct {
 	deaths  []death
 	wall    time.Duration
 	workers int
+	// nodes replaced after a blocked handler; past a limit (together with node deaths) the batch
+	// is cut short: every such event costs seconds, the violation is established long before
+	replaced int
+	cutShort bool
 }
 
 type death struct {
@@ -332,6 +336,12 @@ func runBatchV(prop string, seed uint64, tier string, indices []int, workers int
 			todo := parts[j]
 			attempt := 0
 			for len(todo) > 0 {
+				mu.Lock()
+				stopNow := oc.cutShort
+				mu.Unlock()
+				if stopNow {
+					return
+				}
 				attempt++
 				out := filepath.Join(dir, fmt.Sprintf("w%d-%d.jsonl", j, attempt))
 				wal := filepath.Join(dir, fmt.Sprintf("w%d-%d.wal", j, attempt))
@@ -396,6 +406,16 @@ func runBatchV(prop string, seed uint64, tier string, indices []int, workers int
 						infra("worker %d asked for replacement without finishing a plan", j)
 					}
 					todo = rest
+					mu.Lock()
+					oc.replaced++
+					if oc.replaced+len(oc.deaths) >= cutShortLimit(tier) {
+						oc.cutShort = true
+					}
+					stop := oc.cutShort
+					mu.Unlock()
+					if stop {
+						return
+					}
 					continue
 				}
 				if ee, ok := werr.(*exec.ExitError); ok && ee.ExitCode() == 2 && strings.Contains(eb.String(), "INFRASTRUCTURE") {
@@ -416,7 +436,14 @@ func runBatchV(prop string, seed uint64, tier string, indices []int, workers int
 				}
 				mu.Lock()
 				oc.deaths = append(oc.deaths, death{index: inflight, stderr: headTail(eb.String(), 1500), worker: j})
+				if oc.replaced+len(oc.deaths) >= cutShortLimit(tier) {
+					oc.cutShort = true
+				}
+				stop := oc.cutShort
 				mu.Unlock()
+				if stop {
+					return
+				}
 				var rest []int
 				for _, v := range todo {
 					if !doneIdx[v] && v != inflight {
@@ -433,6 +460,13 @@ func runBatchV(prop string, seed uint64, tier string, indices []int, workers int
 	wg.Wait()
 	oc.wall = time.Since(t0)
 	return oc
+}
+
+func cutShortLimit(tier string) int {
+	if tier == "thorough" {
+		return 60
+	}
+	return 16
 }
 
 func batchWatchdog(tier string) time.Duration {
